@@ -43,6 +43,7 @@ func (o Obs) String() string {
 func (o Obs) Equal(p Obs) bool { return o.String() == p.String() }
 
 const evalTimeout = 5 * time.Second
+const longTimeout = 120 * time.Second // retry limit when the first attempt timed out (loaded machine)
 
 func drain(it gojq.Iter, ctx context.Context) Obs {
 	var o Obs
@@ -79,7 +80,9 @@ var refOpts = []gojq.CompilerOption{
 	gojq.WithFunction("input_filename", 0, 0, func(any, []any) any { return nil }),
 }
 
-func runRef(prog string, in any) (res Obs) {
+func runRef(prog string, in any) Obs { return runRefT(prog, in, evalTimeout) }
+
+func runRefT(prog string, in any, to time.Duration) (res Obs) {
 	msg, panicked := hlib.Catch(func() string {
 		q, err := gojq.Parse(prog)
 		if err != nil {
@@ -91,7 +94,7 @@ func runRef(prog string, in any) (res Obs) {
 			res = Obs{End: "compile"}
 			return ""
 		}
-		ctx, cancel := context.WithTimeout(context.Background(), evalTimeout)
+		ctx, cancel := context.WithTimeout(context.Background(), to)
 		defer cancel()
 		res = drain(code.RunWithContext(ctx, nil, in), ctx)
 		return ""
@@ -115,15 +118,19 @@ func newFq() *fqInst {
 	if err != nil {
 		panic(err)
 	}
-	return &fqInst{os: o, i: i}
+	f := &fqInst{os: o, i: i}
+	// what interp.jq:_main does before it evaluates the expression of `fq -nc …`: the options stack
+	// (decode, tovalue, display read it); the slurps are set per input by setIn.
+	if err := f.run(nil, `_options_stack([_opt_build_default_fixed + {null_input: true, compact: true, expr_given: true}]) | empty`); err != nil {
+		panic(err)
+	}
+	return f
 }
 
-// setIn makes `$in` available to every later evaluation exactly as `--argjson in V` does
-// (interp.jq:_main stores the parsed arguments with _slurps(...); Eval reads them back, interp.go:805).
-func (f *fqInst) setIn(in any) error {
-	ctx, cancel := context.WithTimeout(context.Background(), evalTimeout)
+func (f *fqInst) run(c any, expr string) error {
+	ctx, cancel := context.WithTimeout(context.Background(), 20*evalTimeout)
 	defer cancel()
-	it, err := f.i.Eval(ctx, in, `. as $v | _slurps({in: $v}) | empty`, interp.EvalOpts{})
+	it, err := f.i.Eval(ctx, c, expr, interp.EvalOpts{})
 	if err != nil {
 		return err
 	}
@@ -138,11 +145,19 @@ func (f *fqInst) setIn(in any) error {
 	}
 }
 
+// setIn makes `$in` available to every later evaluation exactly as `--argjson in V` does
+// (interp.jq:_main stores the parsed arguments with _slurps(...); Eval reads them back, interp.go:805).
+func (f *fqInst) setIn(in any) error {
+	return f.run(in, `. as $v | _slurps({in: $v}) | empty`)
+}
+
 // evalDirect: the user's program is the whole query of one interp.Eval with null input (`-n`).
-func (f *fqInst) evalDirect(prog string) (res Obs) {
+func (f *fqInst) evalDirect(prog string) Obs { return f.evalDirectT(prog, evalTimeout) }
+
+func (f *fqInst) evalDirectT(prog string, to time.Duration) (res Obs) {
 	msg, panicked := hlib.Catch(func() string {
 		f.os.stderr.Reset()
-		ctx, cancel := context.WithTimeout(context.Background(), evalTimeout)
+		ctx, cancel := context.WithTimeout(context.Background(), to)
 		defer cancel()
 		it, err := f.i.Eval(ctx, nil, prog, interp.EvalOpts{})
 		if err != nil {
@@ -256,3 +271,42 @@ func fmtLines(lines []string, end string) string {
 }
 
 var _ = fmt.Sprintf
+
+// ---------------------------------------------------------------- known-finding classification
+
+// A disagreement is attributed to the recorded finding `c07-fromjson-decode-value-index` only if
+//   - the program text contains `fromjson`,
+//   - it does NOT vanish when merely a decode-value *argument* of fromjson is converted first (preludeArg: that
+//     is a different mechanism — fromjson of a root string decode value re-decodes its buffer), and
+//   - it vanishes when the *result* of fq's own fromjson is passed through fq's `tovalue` (preludeRes), i.e. the
+//     difference is caused by looking into the decode value that fromjson returns (string key on a
+//     non-object gives null, index on null fails, and `?`/`//`/try probes that observe this).
+const knownFromjson = "c07-fromjson-decode-value-index"
+const preludeArg = `def _c07_fq_fromjson: fromjson; def fromjson: (if _exttype == "decode_value" then tovalue end) | _c07_fq_fromjson; `
+const preludeRes = `def _c07_fq_fromjson: fromjson; def fromjson: (if _exttype == "decode_value" then tovalue end) | _c07_fq_fromjson | tovalue; `
+
+var knownKeys = []string{knownFromjson}
+
+func classify(prog string, agrees func(prelude string) bool) string {
+	if !strings.Contains(prog, "fromjson") {
+		return ""
+	}
+	if agrees(preludeArg) {
+		return ""
+	}
+	if agrees(preludeRes) {
+		return knownFromjson
+	}
+	return ""
+}
+
+func classifyDirect(f *fqInst, prog string, ref Obs) string {
+	return classify(prog, func(prelude string) bool { return f.evalDirect(prelude + prog).Equal(ref) })
+}
+
+func classifyCLI(prog string, inJSON string, ref string) string {
+	return classify(prog, func(prelude string) bool {
+		lines, exit, _, pm := runCLI(prelude+prog, inJSON)
+		return fmtLines(lines, fmt.Sprintf("exit=%d", exit))+pm == ref
+	})
+}
